@@ -1,8 +1,8 @@
 package main
 
 import (
-	"go/token"
 	"fmt"
+	"go/token"
 	"go/types"
 	"sort"
 	"strings"
@@ -36,6 +36,7 @@ var auxRequired = map[string][]string{
 }
 
 func runC09(c *Ctx, r *Run) {
+	checkResultsUsed(c, r, "USE-1", 100)
 	r.Rule("ENC-2", "the writers that bind session and party identity (ID, IDSlice, RID, Config, ...) are total on their type")
 	r.Rule("START-S3", "every start closure hands the caller's session identifier itself (its bytes) to round.NewSession")
 	r.Rule("FS-7", "the types written into the session tag hash every one of their (public) fields")
@@ -190,6 +191,11 @@ func runC09(c *Ctx, r *Run) {
 					}
 					if auxGot[name] == nil {
 						auxGot[name] = map[string]bool{}
+					}
+					// the config must be hashed as a whole (its writer covers every party's public data): data derived from
+					// it (the group key, say) does not separate two epochs of one key
+					if base == "Config" && strings.TrimPrefix(g, "free:") != "Config" {
+						continue
 					}
 					auxGot[name][base] = true
 					auxPos[name] = c.Pos(call.Pos())
